@@ -96,4 +96,7 @@ def run(ctx, rep):
     CF.check_string_table_model(fx, rep, "C02.6")
     nt = check_twins(fx, rep, "C02.7")
     rep.floor("C02.7", nt, 6, "twin pairs")
+    import api_rules as AR
+    AR.check_mapper_constructors(fx, rep, "C02.8")
+    AR.check_frame_api(fx, rep, "C02.api")
     rep.assumptions += ["domain: non-empty names, line numbers < 2^32-1 (empty strings are stored as the sentinel by the string table)"]
